@@ -758,8 +758,11 @@ PROPS["C09"] = dict(
           "(Explicit VR LE header size + even-padded value length): OB version 12+2, four UIs 8+n, optional SH/AE/AE/AE/UI 8+n, "
           "optional private information OB 12+n; dicom_len == even(byte length); "
           "FileMetaTable::update_information_group_length (called by the builder, by ApplyOp::apply and by set_transfer_syntax) stores exactly "
-          "that number in information_group_length and changes no other attribute of the table",
-          expected_verified=6),
+          "that number in information_group_length and changes no other attribute of the table; <FileMetaTable as ApplyOp>::apply "
+          "(the dispatcher of every attribute operation): whenever an operation is accepted, the recorded group length equals the bytes of the "
+          "group as it is AFTER the operation, whatever the per-attribute helpers did to the attribute they were handed; set_transfer_syntax: the UID is stored and the "
+          "recorded group length is that of the table AFTER the change",
+          expected_verified=21),
         N("C09.written_length",
           "cp /repo/Cargo.lock /verif/witness/Cargo.lock && CARGO_TARGET_DIR=/verif/build/witness cargo run --offline -q --release "
           "--manifest-path /verif/witness/Cargo.toml --bin c09_written_length 2>&1 | grep -E '^(WITNESS|EXHAUSTIVE|SKIPPED|error)' | tail -220",
@@ -786,9 +789,10 @@ PROPS["C09"] = dict(
           fns=[("object/src/meta.rs", "apply", r"impl\s+FileMetaTable\b"), ("object/src/meta.rs", "update_information_group_length")]),
     ],
     assumptions=["string byte lengths are abstract (Verus has no str byte reasoning); strings <= 65535 bytes, private information < 2 GiB (preconditions)",
+                 "apply: the types of dicom_core::ops (AttributeOp, AttributeAction, AttributeSelectorStep, Tag and the nine tag constants) are declared in the template with opaque payloads, not extracted; apply_required_string / apply_optional_string are abstract callees that may do anything to the attribute they are given and are ASSUMED to leave a text shorter than 64 KiB; set_transfer_syntax: the trimmed UID of the transfer syntax is an abstract String ASSUMED shorter than 64 KiB; `tags::X =>` match arms are rewritten to guards `t_ if tag_eq(t_, tags::X) =>` (declared rewrite)",
                  "header sizes 8 (UI, SH, AE) and 12 (OB) are those proved for the real Explicit VR LE encoder in C03",
                  "closure postconditions are ghost annotations inserted by a declared rewrite that carries the constant found in the code into the annotation"],
-    uncovered=["that the builder and apply() call update_information_group_length after their last change (the callee is under contract, the call sites are only exercised by the native units), and that FileMetaTable::write emits exactly these bytes "
+    uncovered=["that FileMetaTableBuilder::build calls update_information_group_length after its last change (the callee, apply() and set_transfer_syntax are under contract; that call site is only exercised by the native units); what apply_required_string / apply_optional_string do to the attribute (abstract callees; C09.after_operations); that FileMetaTable::write emits exactly these bytes "
                "(writer pipeline: DataSetWriter, not within reach)", "deductive treatment of reading the group back, of attribute operations and of preamble detection (only the native units cover them)"],
 )
 
